@@ -388,3 +388,67 @@ Proof.
   - apply omapM_Forall2. exact Eg.
   - apply omapM_Forall2 in El. clear -El. induction El; constructor; [apply leaf_level_inv; assumption | assumption].
 Qed.
+
+(* ------------------------------------------------------------------ *)
+(* more on dicts                                                        *)
+
+Section Dict2.
+Context {K V : Type} (eqb : K -> K -> bool).
+Hypothesis eqb_eq : forall a b, eqb a b = true <-> a = b.
+
+Lemma in_aset k (v : V) d k' v' : In (k', v') (aset eqb k v d) -> (k' = k /\ v' = v) \/ In (k', v') d.
+Proof.
+  induction d as [|[k2 v2] d IH]; simpl.
+  - intros [H|[]]. inversion H. auto.
+  - destruct (eqb k2 k) eqn:E; simpl.
+    + apply eqb_eq in E. subst k2. intros [H|H]; [inversion H; auto | auto].
+    + intros [H|H]; [auto | destruct (IH H); auto].
+Qed.
+
+Lemma keys_aset k (v : V) d :
+  map fst (aset eqb k v d) = if amem eqb k d then map fst d else map fst d ++ [k].
+Proof.
+  unfold amem. destruct (afind eqb k d) eqn:E.
+  - eapply keys_aset_present. exact E.
+  - rewrite aset_absent by exact E. rewrite map_app. reflexivity.
+Qed.
+
+Lemma nodup_keys_aset k (v : V) d : NoDup (map fst d) -> NoDup (map fst (aset eqb k v d)).
+Proof.
+  intro H. rewrite keys_aset. unfold amem. destruct (afind eqb k d) eqn:E; [exact H|].
+  apply (afind_none_notin eqb eqb_eq) in E. clear -H E. induction (map fst d) as [|x l IH]; simpl.
+  - constructor; [simpl; tauto | constructor].
+  - inversion H; subst. constructor.
+    + rewrite in_app_iff. simpl. intros [H0|[H0|[]]]; [contradiction | subst; apply E; left; reflexivity].
+    + apply IH; [assumption | intro; apply E; right; assumption].
+Qed.
+End Dict2.
+
+Lemma tslice_length {X} (s : list X) a b :
+  (0 <= a)%Z -> (a <= b)%Z -> (b <= tlen s)%Z -> tlen (tslice s (Some a) (Some b)) = (b - a)%Z.
+Proof.
+  intros H0 H1 H2. unfold tslice, tslice_bound.
+  replace (a <? 0)%Z with false by (symmetry; apply Z.ltb_ge; lia).
+  replace (b <? 0)%Z with false by (symmetry; apply Z.ltb_ge; lia).
+  rewrite !Z.min_l by lia. unfold tlen in *. rewrite firstn_length, skipn_length. lia.
+Qed.
+
+Lemma tsetindex_length {X} (l : list X) i x l' : tsetindex l i x = TOk l' -> length l' = length l.
+Proof.
+  unfold tsetindex. destruct (_ || _); [discriminate|]. intro H. inversion H. apply set_nth_t_length.
+Qed.
+
+Lemma in_trange a b i : In i (trange a b) -> (a <= i < b)%Z.
+Proof.
+  unfold trange. rewrite in_map_iff. intros (n & <- & Hn). apply in_seq in Hn. lia.
+Qed.
+
+Lemma tfoldM_inv {X S} (f : S -> X -> tres S) (P : S -> Prop) l :
+  (forall s x s', In x l -> P s -> f s x = TOk s' -> P s') ->
+  forall s s', P s -> tfoldM f l s = TOk s' -> P s'.
+Proof.
+  induction l as [|x l IH]; intros Hf s s' Hs H; simpl in H.
+  - inversion H. subst. exact Hs.
+  - destruct (f s x) eqn:E; simpl in H; [|discriminate].
+    eapply IH; [intros; eapply Hf; eauto; right; assumption | | exact H]. eapply Hf; eauto. left. reflexivity.
+Qed.
